@@ -37,6 +37,11 @@ CLAIMED = {
    note="Bounds: nrep,ngen<=2, t_max=1 (quick); <=3 and t_max in 0..2 (thorough). In-place-mutation flags are enumerated over 16 harness instances, the rest is symbolic. Engine='symnp' runner only schedules the CrossHair processes.",
    technique="CrossHair symbolic execution (z3) of the real loop with PEP316 contracts; Confirmed-over-all-paths required; reachability twin; concrete replay",
    design="2/C20"),
+   "C01": dict(
+   text="Assume-guarantee decomposition, each half decided on the real code. Kernel: mat_meiosis/mat_dh/mat_mate and the duplicate dense_* functions run on symbolic alleles, crossover probabilities (exact 0 and 1 reachable) and uniform draws; on every feasible path each gamete cell is term-identical to a cell of the selected individual at that marker and z3 proves that the copy changes only where the path condition entails xoprob>0. Protocols: mate() of all seven protocols runs with the kernel replaced by its summary (provenance tokens), and the crossing structure of every progeny copy, the sharing of gametes, progeny count/order/names/family labels/counters, homozygosity of DH progeny and the untouched inputs/metadata are compared with the documented crossing diagrams for enumerated configurations (selfs, repeated parents, scalar and per-cross array counts, selfing depth). End-to-end runs with the real kernel tie the halves together. Counterexamples are replayed on real numpy with real generators.",
+   note="Bounds: kernel <=3 markers (5 thorough), <=2 gametes; protocols <=2 crosses (3), nmating/nprogeny in {1,2}, nself<=1 (2), 2 markers; founders carry pairwise distinct codes. The kernel summary is justified by the kernel obligations of the same run.",
+   technique="symbolic execution on z3-term arrays (symnp): term-identity provenance + z3 entailment of xoprob>0 per path; kernel summary (assume-guarantee) for the protocols; replay on real numpy",
+   design="2/C01"),
 }
 NA = {}
 for pid in props:
